@@ -53,8 +53,8 @@ Proof.
   destruct (p_offset d =? 0) eqn:E; cbn [negb].
   - assert (Ei : p_instant d = p_wall d) by (unfold p_instant; lia). rewrite Ei. unfold p_wall.
     rewrite fields_of_wall_of by assumption. cbn. repeat split; reflexivity.
-  - unfold p_shift, p_of_wall. change (p_wall d - p_offset d * 1000000) with (p_instant d).
-    destruct (fields_of_wall (p_instant d)) as [[[[[[y m] dd] hh] mm] ss] us]. cbn. repeat split; reflexivity.
+  - unfold p_shift, p_of_wall, p_instant.
+    destruct (fields_of_wall (p_wall d - p_offset d * 1000000)) as [[[[[[y m] dd] hh] mm] ss] us]. cbn. repeat split; reflexivity.
 Qed.
 
 Definition cross_pair (a b : pdt) : Prop :=
@@ -122,9 +122,8 @@ Proof.
   subst xy xm xd xh xi xs xu yy ym yd yh yi ys yu.
   clear. cbn [p_year p_month p_day p_hour p_minute p_second p_microsecond].
   (* both sides are now the same tail over the same atoms; only total_days (not in core7) differs *)
-  repeat (match goal with |- context [if ?c then _ else _] => destruct c end; cbv beta iota zeta;
-          cbn [p_year p_month p_day p_hour p_minute p_second p_microsecond]).
-  all: reflexivity.
+  abstract (repeat (match goal with |- context [if ?c then _ else _] => destruct c end; cbv beta iota zeta;
+          cbn [p_year p_month p_day p_hour p_minute p_second p_microsecond]); reflexivity).
 Qed.
 
 (* the universal cross-zone specification: pd_spec on the two UTC readings *)
@@ -146,5 +145,14 @@ Theorem pd_cross_zone_is_utc_lemma a b : cross_pair a b -> p_instant a < p_insta
 Proof.
   intros C Hlt. pose proof (cross_core a b C Hlt) as K. pose proof (py_pd_spec_cross a b C Hlt) as S.
   destruct (py_precise_diff a b) as [r|]; [|contradiction]. destruct (py_precise_diff (utc_of a) (utc_of b)) as [r'|]; [|contradiction].
-  exists r, r'. repeat split; try assumption; apply utc_of_wf.
+  exists r, r'. destruct (utc_of_wf a) as [Wfa Ea]. destruct (utc_of_wf b) as [Wfb Eb].
+  exact (conj eq_refl (conj eq_refl (conj K (conj S (conj Wfa (conj Wfb (conj Ea Eb))))))).
+Qed.
+
+(* all components canonical, cross-zone *)
+Theorem pd_cross_zone_ranges_lemma a b : cross_pair a b -> p_instant a < p_instant b ->
+  exists r, py_precise_diff a b = Ok r /\ in_ranges r.
+Proof.
+  intros C Hlt. destruct (pd_cross_zone_is_utc_lemma a b C Hlt) as (r & r' & E & _ & _ & S & Wa & Wb & Ea & Eb).
+  exists r. split; [exact E|]. apply (spec_ranges (utc_of a) (utc_of b)); [exact Wa|exact Wb|rewrite Ea, Eb; exact Hlt|exact S].
 Qed.
